@@ -7,7 +7,8 @@ CONFIG = {'gen': ['SmbDispatch'],
          'Message.Unmarshal; Message.Marshal called k = 1..4 times on one message for 7 concrete commands (Close, Echo, LogoffAndx, '
          'NtTransact, Transaction req/resp) and for the command template with arbitrary raw contents around the 255-word / 65535-byte '
          'limits; Message.Unmarshal on well-formed, every-prefix-truncated, trailing, corrupt-count and random messages; distinct = '
-         'distinct input line; non-trivial = implementation output is a non-empty value c03.msg.remarshal: a message decoded from random-block bytes is marshalled three times; all three encodings must be identical.',
+         'distinct input line; non-trivial = implementation output is a non-empty value c03.msg.remarshal: a message decoded from '
+         'random-block bytes is marshalled three times; all three encodings must be identical.',
  'assumptions': ['encoding/binary Put/Uint16/32, append, copy and slice expressions behave as modelled (slices passed to decoders have '
                  'capacity = length)',
                  'a command enters the envelope only through the Marshal/Unmarshal template shared by all 115 concrete commands (nil-block '
